@@ -15,6 +15,7 @@ import (
 	"io"
 	"os"
 	"strings"
+	"sync"
 	"testing/iotest"
 
 	"connectrpc.com/connect"
@@ -306,6 +307,12 @@ func verifOKFlag(b bool) vsx {
 // the library's business and only "panicked or not" is reported ((any) / (crash)).
 // The same rule is part of the model's result encoding (C20_Model.v h_step).
 func verifHistRun(enc int64, comp connect.Compressor, decomp connect.Decompressor, ops []vsx) vsx {
+	return verifHistRunGated(enc, comp, decomp, ops, nil)
+}
+
+// gate (may be nil): called before each operation on the instances, blocks until it is this history's turn
+// and returns what to call when the operation is over (verifPairRun: two histories in lock-step)
+func verifHistRunGated(enc int64, comp connect.Compressor, decomp connect.Decompressor, ops []vsx, gate func() func()) vsx {
 	type sink struct {
 		content []byte
 		acc     []byte
@@ -494,11 +501,112 @@ func verifHistRun(enc int64, comp connect.Compressor, decomp connect.Decompresso
 		default:
 			return vL(vS("bad-case"))
 		}
+		release := func() {}
+		if gate != nil {
+			release = gate()
+		}
 		res, crashed := verifStep(f)
+		release()
 		out = append(out, res)
 		if crashed {
 			break
 		}
 	}
 	return vL(out...)
+}
+
+// ---------------------------------------------------------------------------
+// two instances from the same constructor, their histories interleaved
+// ---------------------------------------------------------------------------
+
+// whose turn it is: schedule[pos]; the entries of a history that is over are skipped
+type verifSchedule struct {
+	mu       sync.Mutex
+	cond     *sync.Cond
+	schedule []int
+	pos      int
+	over     [2]bool
+}
+
+func (s *verifSchedule) turn() int {
+	for s.pos < len(s.schedule) && s.over[s.schedule[s.pos]] {
+		s.pos++
+	}
+	if s.pos >= len(s.schedule) {
+		return -1
+	}
+	return s.schedule[s.pos]
+}
+
+func (s *verifSchedule) gate(inst int) func() func() {
+	return func() func() {
+		s.mu.Lock()
+		for t := s.turn(); t != inst && t != -1; t = s.turn() {
+			s.cond.Wait()
+		}
+		s.mu.Unlock()
+		return func() {
+			s.mu.Lock()
+			s.pos++
+			s.cond.Broadcast()
+			s.mu.Unlock()
+		}
+	}
+}
+
+func (s *verifSchedule) finish(inst int) {
+	s.mu.Lock()
+	s.over[inst] = true
+	s.cond.Broadcast()
+	s.mu.Unlock()
+}
+
+// enc (opsA) (opsB) (schedule): `obtain` is called twice - as two users of the same constructor call it - and
+// the two scripted histories (verifHistRun) run on the two pairs of instances, one operation at a time in the
+// order the schedule gives (0 = the next operation of A, 1 = of B).  Result: (resultA resultB), each what
+// verifHistRun reports.  Two instances are independent: each result is that of its history run alone.
+func verifPairRun(enc int64, obtain func() (connect.Compressor, connect.Decompressor, bool), opsA, opsB, schedule []vsx) vsx {
+	sched := &verifSchedule{}
+	sched.cond = sync.NewCond(&sched.mu)
+	count := [2]int{}
+	for _, t := range schedule {
+		if t.k != 'i' || (t.i != 0 && t.i != 1) {
+			return vL(vS("bad-case"))
+		}
+		sched.schedule = append(sched.schedule, int(t.i))
+		count[t.i]++
+	}
+	if count[0] != len(opsA) || count[1] != len(opsB) {
+		return vL(vS("bad-case"))
+	}
+	var comps [2]connect.Compressor
+	var decomps [2]connect.Decompressor
+	for i := range comps {
+		var ok bool
+		if comps[i], decomps[i], ok = obtain(); !ok {
+			return vL(vS("bad-case"))
+		}
+	}
+	var res [2]vsx
+	var wg sync.WaitGroup
+	for i, ops := range [2][]vsx{opsA, opsB} {
+		wg.Add(1)
+		go func(i int, ops []vsx) {
+			defer wg.Done()
+			defer sched.finish(i)
+			defer func() {
+				if r := recover(); r != nil {
+					res[i] = vL(vCrash())
+				}
+			}()
+			res[i] = verifHistRunGated(enc, comps[i], decomps[i], ops, sched.gate(i))
+		}(i, ops)
+	}
+	wg.Wait()
+	for _, r := range res {
+		if len(r.l) == 1 && r.l[0].k == 'b' && r.l[0].str() == "bad-case" {
+			return vL(vS("bad-case"))
+		}
+	}
+	return vL(res[0], res[1])
 }
